@@ -218,6 +218,7 @@ func init() {
 	Register(&Property{ID: "C01", Trusted: commonTrusted, RuleText: "SH-NILBASE", Explanation: "group laws (structure)", Run: func(c *Ctx) {
 		NilBase(c, "default")
 		CheckMustWrite(c, "C01")
+		SiblingAgreement(c, "default")
 	}})
 }
 
